@@ -22,6 +22,18 @@ DESCRIPTORS = {
     "constant_expressions": {"consts": [["RATE", 1000], ["PERIOD", "1/RATE"], ["N_CH", 7], ["HALF", "N_CH/2"], ["TWICE", "N_CH*2"], ["GAIN", 2.5],
                                         ["SCALED", "GAIN*N_CH"], ["LEN", "N_CH + 1"], ["NEG", "3 - N_CH"], ["PAREN", "(N_CH + 1)/4"], ["EXACT", "8/2"]],
                              "defs": [["msg", "BUF", [["data", "int16", "LEN"], ["more", "double", "N_CH*2"]]]], "imported": 0},
+    # --- a second compilation in one process: the same names mean something else than in the first (state kept by a back end
+    #     or by the parser module between two compilations must not leak)
+    "recompile_alias_redefined": {"prior": {"defs": [["alias", "SAMPLE_T", "int16"], ["struct", "REC", [["v", "SAMPLE_T", 0], ["vs", "SAMPLE_T", 4]]], ["msg", "CAL", [["r", "REC", 0], ["g", "SAMPLE_T", 4]]]]},
+                                  "defs": [["alias", "SAMPLE_T", "double"], ["struct", "REC", [["v", "SAMPLE_T", 0], ["vs", "SAMPLE_T", 4]]], ["msg", "CAL", [["r", "REC", 0], ["g", "SAMPLE_T", 4]]]], "imported": 0},
+    "recompile_struct_redefined": {"prior": {"defs": [S, ["msg", "POS", [["p", "PT", 0], ["pts", "PT", 3]]]]},
+                                   "defs": [["struct", "PT", [["a", "int32", 0], ["b", "uint8", 4]]], ["msg", "POS", [["p", "PT", 0], ["pts", "PT", 3]]]], "imported": 0},
+    "recompile_msg_redefined": {"prior": {"defs": [["msg", "INNER", [["v", "int32", 0]]], ["msg", "OUTER", [["i", "INNER", 0], ["arr", "INNER", 2]]], ["signal", "PING"]],
+                                          "consts": [["N_CH", 4], ["LEN", "N_CH*2"]]},
+                                "consts": [["N_CH", 7], ["LEN", "N_CH + 1"]],
+                                "defs": [["msg", "INNER", [["v", "double", 0], ["k", "int16", "LEN"]]], ["msg", "PING", [["i", "INNER", 0]]], ["signal", "OUTER"]], "imported": 0},
+    "recompile_alias_becomes_struct": {"prior": {"defs": [["alias", "T", "uint16"], ["msg", "USE", [["t", "T", 0], ["ts", "T", 2]]]]},
+                                       "defs": [["struct", "T", [["lo", "int32", 0], ["hi", "int32", 0]]], ["msg", "USE", [["t", "T", 0], ["ts", "T", 2]]]], "imported": 0},
     # --- shapes the documented grammar allows but whose emission order the back ends get wrong (known findings)
     "alias_of_imported_struct": {"kf": "C15-alias-of-struct-order", "defs": [S, ["alias", "POINT", "PT"], ["msg", "USEA", [["p", "POINT", 0]]]], "imported": 1},
     "alias_of_imported_struct_in_struct": {"kf": "C15-alias-of-struct-order", "defs": [S, ["alias", "POINT", "PT"], ["struct", "SEG", [["a", "POINT", 0], ["b", "POINT", 0]]]], "imported": 1},
